@@ -401,4 +401,9 @@ def quadP (n : Nat) (c0 : Rat) (b : Nat → Rat) (q : Nat → Nat → Rat) (x : 
 def quadP1 (n : Nat) (b : Nat → Rat) (q : Nat → Nat → Rat) (ax : Nat) (x : Nat → Rat) : Rat :=
   b ax + sumTo n fun a => (q ax a + q a ax) * x a
 
+/-- the meshes the exactness claim speaks about: fully valid, every direction open, at least
+three cells and a non-zero cell size along every axis -/
+def ExactMesh (f : Fld) : Prop :=
+  FullyValid f ∧ ∀ a, a < f.mesh.ndim → periodic f a = false ∧ 3 ≤ f.mesh.nAt a ∧ f.mesh.cellAt a ≠ 0
+
 end DFV.C05
